@@ -8,7 +8,7 @@ dst = f"/verif/seeded/{prop}-{var}"
 os.makedirs(dst, exist_ok=True)
 for f in glob.glob(src + "/*"):
     b = os.path.basename(f)
-    if b in ("patch.diff", "notes.md", "confirm.log") or b.startswith("demo"):
+    if b in ("patch.diff", "patch.rebased.diff", "notes.md", "confirm.log") or b.startswith("demo"):
         if os.path.isdir(f):
             shutil.copytree(f, os.path.join(dst, b), dirs_exist_ok=True, ignore=shutil.ignore_patterns("target", "Cargo.lock", "*.log"))
         elif os.path.getsize(f) < 200_000:
@@ -20,13 +20,13 @@ except Exception:
     pass
 meta = {
     "id": f"{prop}-{var}",
-    "breaks_property": prop,
-    "origin": "independent sub-agent given only the property text and a scratch worktree",
+    "breaks_property": prop[:-2] if prop.endswith("r2") else prop,
+    "origin": "independent sub-agent given only the property text and a scratch worktree" + (" (second round: asked for changes that need at least three coinciding conditions, because the first round was caught quickly)" if prop.endswith("r2") else ""),
     "needs_to_manifest": needs,
     "confirmed": confirm,
     "how_confirmed": how,
     "check_result": result,
-    "apply": f"git -C /repo apply /verif/seeded/{prop}-{var}/patch.diff ; ./check {prop} ; git -C /repo checkout -- .",
+    "apply": f"git -C /repo apply /verif/seeded/{prop}-{var}/patch.diff ; ./check {prop[:-2] if prop.endswith('r2') else prop} ; git -C /repo checkout -- .",
 }
 json.dump(meta, open(dst + "/meta.json", "w"), indent=1)
 print("kept", dst)
